@@ -62,6 +62,9 @@ CHECKS = {
     "C11": ("exploration", "runtime monitoring: random feature programs compiled by fea_rs::Compiler in rlimited children, compiled GSUB/GPOS applied by an independent raw-bytes OTL interpreter, compared with a direct interpreter of the program's AST",
             "Programs from a grammar over languagesystems, named classes, GDEF classes, standalone and nested named lookups, every lookupflag kind, single / multiple / alternate / ligature / chaining-contextual substitution (explicit lookups, inline single, inline ligature, ignore) and single / pair (glyph, enum, class) / contextual positioning, script and language statements (exclude_dflt) are compiled; every string of length <= 3 over the mentioned glyphs (+ random strings <= 6) is shaped under every registered language system and two unregistered ones, with all features on and each alone, and must come out exactly as the AST interpreter says (glyphs and accumulated value records).",
             "Programs whose meaning the specification leaves open (duplicate keys in a lookup, overlapping pair classes, a lookup reference or no-op lookupflag between mergeable rules, a feature re-opened with script statements, a script statement naming the only system in force) are generated but not judged; aalt, size, cursive, mark-attachment positioning and useExtension are outside the grammar.", "DESIGN.md §5 C11"),
+    "C18": ("exploration", "runtime monitoring: every name-id reference in fvar / STAT / GSUB+GPOS feature parameters walked from the emitted font and resolved in the name table; strings compared with the manifest and with an independent model of the documented naming fallbacks; 3 forced hash seeds per source",
+            "Generated naming configurations (every naming field present or absent, RIBBI / non-RIBBI styles, axis, instance and PostScript names colliding with family / style / full / axis strings and with each other, one string under several reserved ids, featureNames / cvParameters (several features, repeated parameter labels) / table name in feature code, static and variable) are compiled under three hash seeds: bytes must agree, every referenced id must have a non-empty record, reserved ids appear only where the spec allows (2/17 for the default instance and the STAT elided fallback, 6 for a PostScript name), strings equal the source's, and ids 1-6, 16, 17 equal the model of ufo2ft's fallback rules.",
+            "Only UFO/designspace naming fields that fontc maps are generated (postscriptFullName, localized names and STAT from feature code are not); an unused cvParameters field holding 0xFFFF is read as unset, like NULL.", "DESIGN.md §5 C18"),
 }
 
 NOT_YET = {}
